@@ -66,7 +66,7 @@ Theorem C16_duration : forall cf now initres evs d inits gs st,
 Proof. exact duration_session. Qed.
 Print Assumptions C16_duration.
 
-(** In real-time mode the catch-up loop ignores the duration: the last segment goes out without
+(** In real-time mode the catch-up loop of the pinned code ([sc_catchup_checks = false]) ignores the duration: the last segment goes out without
     lmsg, and a sender that stays behind goes on beyond the duration. *)
 Theorem C16_duration_catchup_refuted :
   let cf := mk_scfg [ {| ir_kind := RVideo; ir_tab := Some rep2s |} ] rep2s 8000 2000 cfg0 false false (Some 2) false in
@@ -76,6 +76,33 @@ Theorem C16_duration_catchup_refuted :
   (let '(_, gs, st) := session cf 11200 [] [EvTimer {| fi_clock := [14300; 16400; 18500; 18501]; fi_refuse := [] |}] in
    map (map (fun m => (mp_nr m, mp_last m))) gs = [[(5, false)]; [(6, false)]; [(7, false)]; [(8, false)]] /\ lastToSend st = 6).
 Proof. exact catchup_witness. Qed.
+
+(** With the proposed repair of the catch-up loop ([sc_catchup_checks = true],
+    proposed_fixes/C16-catchup-duration.diff; the harness reads from the source which variant the tree
+    under test has) the duration theorem holds in step mode AND in real time, for every sequence of
+    clock readings: exactly floor(d*1000/segDurMS)+1 groups, only the last marked lmsg, then stopped. *)
+Theorem C16_duration_repaired_catchup : forall cf now initres evs d inits gs st,
+  sc_catchup_checks cf = true ->
+  sc_dur cf = Some d -> 0 <= d -> 0 < sc_segDurMS cf ->
+  sc_chunked cf = false -> tabs_ok cf -> avail_total cf ->
+  forallb (fun i => nth i initres true) (seq 0 (length (sc_reps cf))) = true ->
+  let k := d * 1000 / sc_segDurMS cf in
+  let first := findLastSegNr cf now + 1 in
+  0 <= first ->
+  Forall is_fire evs -> k < lenZ evs ->
+  session cf now initres evs = (inits, gs, st) ->
+  inits = repIdxs cf /\ lenZ gs = k + 1 /\ numbered_last cf (first + k) first gs /\ ph st = PStopped.
+Proof. exact duration_session_any. Qed.
+Print Assumptions C16_duration_repaired_catchup.
+
+Theorem C16_catchup_repaired_example :
+  let cf := mk_scfg_rc RCeil true [ {| ir_kind := RVideo; ir_tab := Some rep2s |} ] rep2s 8000 2000 cfg0 false false (Some 2) false in
+  (let '(_, gs, st) := session cf 11200 [] [EvTimer {| fi_clock := [14300; 14301]; fi_refuse := [] |}] in
+   map (map (fun m => (mp_nr m, mp_last m))) gs = [[(5, false)]; [(6, true)]] /\ ph st = PStopped)
+  /\
+  (let '(_, gs, st) := session cf 11200 [] [EvTimer {| fi_clock := [14300; 16400; 18500; 18501]; fi_refuse := [] |}] in
+   map (map (fun m => (mp_nr m, mp_last m))) gs = [[(5, false)]; [(6, true)]] /\ ph st = PStopped).
+Proof. exact catchup_fixed_witness. Qed.
 
 (** Completeness: if the availability function never answers before the segment is available (and
     at most 1 s late), every attempt of every group is accepted by the segment server model, i.e.
